@@ -2,11 +2,19 @@
    The proved part concerns the one core claripy computes itself: when SatCacheMixin._add finds that And(con, added) builds to the
    constant False it caches (con, added) as the unsat core -- that pair is unsatisfiable under every assignment
    (C16_shortcut_core_unsat, a corollary of the construction soundness theorem), and both members are constraints of the
-   solver by construction of the shortcut.  Cores read back from Z3 (tracking names, translate/clone, the composite solver's
-   collection over children) are not modelled: they are tested against enumeration, with known findings. *)
+   solver by construction of the shortcut.
+   Cores read back from Z3 go through constraint tracking (Model/Track.v: each constraint is asserted under the name
+   str(hash(z3 constraint)) unless that name is already tracked; the core is the tracked constraints whose names Z3 reports):
+     C16_track_exact      with collision-free names the tracked solver holds exactly the models of what was added;
+     C16_core_subset      every element of the returned core is a tracked (hence added) constraint;
+     C16_core_unsat       the returned core is unsatisfiable whenever the constraints Z3 names are (Z3's promise);
+     C16_collision_refuted   a name collision silently drops a constraint (32-bit Z3 AST hashes: a known risk, not a finding).
+   translate/clone after simplify or branch and the composite solver's collection over children are not modelled: they are
+   tested against enumeration, with known findings. *)
 From Coq Require Import ZArith List Bool.
 Require Import CV.Model.PyPrelude CV.Model.Ast CV.Model.Build CV.Model.Frontend
-               CV.Proofs.AstLemmas CV.Proofs.BuildSound CV.Proofs.SimpSound CV.Proofs.FrontendSound.
+               CV.Proofs.AstLemmas CV.Proofs.BuildSound CV.Proofs.SimpSound CV.Proofs.FrontendSound
+               CV.Model.Track CV.Proofs.TrackSound.
 Import ListNotations.
 
 Theorem C16_shortcut_core_unsat : forall fuel con added r,
@@ -14,3 +22,24 @@ Theorem C16_shortcut_core_unsat : forall fuel con added r,
   forall rho, models rho [con; added] = false.
 Proof. intros fuel. exact (shortcut_core_unsat (mk fuel) (mk_sound fuel)). Qed.
 Print Assumptions C16_shortcut_core_unsat.
+
+Theorem C16_track_exact : forall (name : expr -> Z) cs st, named name st -> injective_on name (asserted st ++ cs) ->
+  named name (track_add name st cs) /\
+  forall rho, models rho (asserted (track_add name st cs)) = models rho (asserted st) && models rho cs.
+Proof. intros name cs st. exact (track_add_exact name cs st). Qed.
+Print Assumptions C16_track_exact.
+
+Theorem C16_core_subset : forall st names c, In c (core_of st names) -> In c (asserted st).
+Proof. exact core_subset. Qed.
+Print Assumptions C16_core_subset.
+
+Theorem C16_core_unsat : forall st names,
+  (forall rho, exists p, In p st /\ existsb (Z.eqb (fst p)) names = true /\ holds rho (snd p) = false) ->
+  forall rho, models rho (core_of st names) = false.
+Proof. exact core_unsat. Qed.
+Print Assumptions C16_core_unsat.
+
+Theorem C16_collision_refuted : exists (name : expr -> Z) cs rho,
+  models rho (asserted (track_add name [] cs)) = true /\ models rho cs = false.
+Proof. exact collision_refuted. Qed.
+Print Assumptions C16_collision_refuted.
